@@ -43,7 +43,7 @@ CLAIMS = {
           "packer makes pack bytes visible (flush/close) before committing the row and unlinks a loose file only after the commit; clean_storage decides on a snapshot begun after a session refresh; "
           "reader catches FileNotFoundError of the loose probe, routes the key to the retry set, refreshes its session and re-queries (IN and sorted-scan strategies) before answering MISSING, in both stream modes, and takes the loose size from the open descriptor; "
           "LazyLooseStream retries through loosen_object; transaction premises (rows become visible to other connections only at COMMIT, WAL snapshots). Each premise is a necessary condition; the interleaving semantics themselves are NOT decided."),
-    note="Trusted: POSIX unlink-while-open, rename atomicity, SQLite WAL snapshot isolation (a new session sees all earlier commits); one packer. Also hosts the rule module of C08 (freshness for long-open reader handles, which are in C04's quantifier).",
+    note="Trusted: POSIX unlink-while-open, rename atomicity, SQLite WAL snapshot isolation (a new session sees all earlier commits); one packer. Also hosts the rule modules of C08 (freshness for long-open reader handles, which are in C04's quantifier) and C07 (the stream a reader gets through the fallback pass behaves like the one of the first pass).",
     technique="static typestate analysis on ICFGs with exception edges + handler-routing/provenance checks on the read funnel", ref="5/C04"),
  'C17': dict(
     text=("Decides, on control-flow graphs with exception edges (any call may raise): (R2) no except clause of the package that catches a generic I/O or database error around a mutating effect continues normally (table of allowed narrow idioms); (R2p) closed table of the sites that swallow PermissionError or a whole OSError; "
